@@ -650,4 +650,37 @@ theorem lastOf_append (xs ys : List (Name × Owner)) (k : Name) :
     simp only [List.cons_append, lastOf, ih]
     cases lastOf ys k <;> rfl
 
+/-! ## pathlib stem / suffix -/
+
+theorem rfindAux_append (ch : Char) (a b : List Char) (i : Nat) (acc : Option Nat) :
+    rfindAux ch (a ++ b) i acc = rfindAux ch b (i + a.length) (rfindAux ch a i acc) := by
+  induction a generalizing i acc with
+  | nil => simp [rfindAux]
+  | cons c a ih =>
+    simp only [List.cons_append, rfindAux, ih, List.length_cons]
+    have : i + 1 + a.length = i + (a.length + 1) := by omega
+    rw [this]
+
+theorem rfindAux_absent (ch : Char) (x : List Char) (hx : ch ∉ x) (i : Nat) (acc : Option Nat) :
+    rfindAux ch x i acc = acc := by
+  induction x generalizing i with
+  | nil => rfl
+  | cons c x ih =>
+    have h1 : c ≠ ch := fun e => hx (by simp [e])
+    have h2 : ch ∉ x := fun e => hx (List.mem_cons_of_mem _ e)
+    simp [rfindAux, h1, ih h2]
+
+/-- A name `s.x` with `s`, `x` non-empty and no dot in `x` splits into stem `s` and suffix `.x` — dots inside `s` stay. -/
+theorem splitExt_last_suffix (s x : List Char) (hs : s ≠ []) (hx : x ≠ []) (hdot : '.' ∉ x) :
+    splitExt (s ++ '.' :: x) = (s, '.' :: x) := by
+  unfold splitExt
+  rw [rfindAux_append]
+  simp only [rfindAux, if_true, Nat.zero_add]
+  rw [rfindAux_absent '.' x hdot]
+  have h1 : 0 < s.length := List.length_pos_iff.mpr hs
+  have h2 : 0 < x.length := List.length_pos_iff.mpr hx
+  have h3 : s.length + 1 < (s ++ '.' :: x).length := by simp; omega
+  simp only [h1, h3, and_self, if_true]
+  simp
+
 end NunavutVerif.Resolve
